@@ -1823,8 +1823,10 @@ def every_exit_hands_back(ctx):
             for b_ in binds:
                 st = g.nodes[b_].stmt
                 val = getattr(st, "value", None)
-                if isinstance(st, (ast.Assign, ast.AnnAssign)) and val is not None and not (isinstance(val, ast.Constant) and val.value is None):
-                    starts += [s_ for s_, lab in g.succ[b_] if lab != "exc"]
+                if isinstance(st, ast.Delete) or (isinstance(st, (ast.Assign, ast.AnnAssign))
+                                                  and (val is None or (isinstance(val, ast.Constant) and val.value is None))):
+                    continue                     # `del x` / `x = None`: the name no longer denotes a record
+                starts += [s_ for s_, lab in g.succ[b_] if lab != "exc"]
             ctx.require(starts, f"{f.key}: cannot tell from where `{canon}` is held")
             full, part = _edges_establishing(g, f.node, sl.excuse(names, f.node))
             avoid = set(nodes) | set(binds)
